@@ -123,9 +123,9 @@ Eval(script, e, env, fuel) ==
             ELSE IF IsNull(of) THEN SqlNull                                       \* strict set-returning function: no row
             ELSE IF of.k # "jsonb" THEN Err("set returning function on " \o of.k)
             ELSE IF e.src = "each" THEN (IF of.d.t # "obj" THEN Err("cannot call jsonb_each on a non-object")
-                                         ELSE BoolAnd(script, e.body, env, fuel, [i \in 1..Len(of.d.kv) |-> [key |-> Txt(of.d.kv[i][1]), value |-> Js(of.d.kv[i][2])]]))
+                                         ELSE BoolAnd(script, e, env, fuel, [i \in 1..Len(of.d.kv) |-> [key |-> Txt(of.d.kv[i][1]), value |-> Js(of.d.kv[i][2])]]))
             ELSE IF of.d.t # "arr" THEN Err("cannot extract elements from a non-array")
-            ELSE BoolAnd(script, e.body, env, fuel, [i \in 1..Len(of.d.el) |-> [key |-> SqlNull, value |-> Js(of.d.el[i])]])
+            ELSE BoolAnd(script, e, env, fuel, [i \in 1..Len(of.d.el) |-> [key |-> SqlNull, value |-> Js(of.d.el[i])]])
       [] e.e = "call" ->
             IF ~HasFunc(script, e.fn) THEN Err("function " \o e.fn \o " does not exist")
             ELSE IF Len(e.args) # 1 THEN Err("wrong number of arguments for " \o e.fn)
@@ -143,16 +143,17 @@ InList(a, vs) ==
               IF IsErr(r) THEN r ELSE IF r.k = "bool" /\ r.v THEN B(TRUE)
               ELSE IF IsNull(h) \/ IsNull(r) THEN SqlNull ELSE B(FALSE)
 
-(* bool_and over the rows: NULL inputs are ignored, NULL when no non-null input *)
-BoolAnd(script, body, env, fuel, rows) ==
+(* bool_and / bool_or over the rows: NULL inputs are ignored, NULL when no non-null input *)
+BoolAnd(script, e, env, fuel, rows) ==
     IF rows = <<>> THEN SqlNull
     ELSE LET r == Head(rows)
-             v == Eval(script, body, Bind(Bind(env, "key", r.key), "value", r.value), fuel)
-             rest == BoolAnd(script, body, env, fuel, Tail(rows)) IN
+             v == Eval(script, e.body, Bind(Bind(env, "key", r.key), "value", r.value), fuel)
+             rest == BoolAnd(script, e, env, fuel, Tail(rows)) IN
          IF IsErr(v) THEN v ELSE IF IsErr(rest) THEN rest
          ELSE IF v.k \notin {"bool", "null"} THEN Err("bool_and on a non-boolean")
          ELSE IF IsNull(v) THEN rest
          ELSE IF IsNull(rest) THEN v
+         ELSE IF e.agg = "or" THEN B(v.v \/ rest.v)        \* bool_or
          ELSE B(v.v /\ rest.v)
 
 (* statement execution: [done, ret, env] *)
